@@ -73,7 +73,10 @@ fn send_and_lex(f: Flow<(), Prepare>) -> Option<(crate::drv_req::LexedHead, Flow
     let rr = match guarded(|| f.proceed())?.ok()?? {
         SendRequestResult::RecvResponse(f) => f,
         SendRequestResult::SendBody(f) => crate::fx::finish_body(f)?,
-        SendRequestResult::Await100(_) => return None,
+        SendRequestResult::Await100(a) => match guarded(|| a.proceed())?.ok()? {
+            ureq_proto::client::flow::Await100Result::SendBody(f) => crate::fx::finish_body(f)?,
+            ureq_proto::client::flow::Await100Result::RecvResponse(f) => f,
+        },
     };
     Some((lh, rr))
 }
@@ -94,6 +97,10 @@ pub fn run_chain_opt(t: &mut Tracer, orig: &Value, method: &str, same_host: bool
     }
     if body_m {
         b = b.header("content-length", "0");
+    }
+    if hops.len() % 3 == 1 || orig["port"] != 0 {
+        // the first request negotiates with Expect: 100-continue (and, for bodiless methods, carries it for nothing)
+        b = b.header("expect", "100-continue");
     }
     let req = b.body(()).unwrap();
     let mut flow = match guarded(|| Flow::new(req)) {
